@@ -65,14 +65,14 @@ def corpus_cases():
 
 def gen(ctx):
     quick = ctx.tier == "quick"
-    n = 14 if quick else 250
+    n = 14 if quick else 800
     conv = lambda c, r: r[-1]["converged"]  # noqa: E731
     cs = list(corpus_cases())
     for solver in ("vi", "pi", "savi"):
         cs += runs.generate(ctx, solver, n, accept=conv, ks=[40], gammas=[F(1, 2), F(1, 4), F(3, 4)], eps=None)
         cs += runs.generate(ctx, solver, max(2, n // 4))
     # PI with tiny evaluation budgets: where the forced hypothesis bites
-    cs += runs.generate(ctx, "pi", 6 if quick else 80, accept=conv, ks=[40], max_eval=1, gammas=[F(1, 2), F(3, 4)])
+    cs += runs.generate(ctx, "pi", 6 if quick else 250, accept=conv, ks=[40], max_eval=1, gammas=[F(1, 2), F(3, 4)])
     return cs
 
 
